@@ -585,6 +585,9 @@ def run(tier, seed):
                                                 f'{name}: {first[0]} (order {first[1]}, touched first {first[2]}) vs {g[2]} (order {order}, touched first {touch})',
                                                 {'kind': 'module-groups', 'order': list(order), 'touch': list(touch)}))
     scratch.drop(mroot)
+    for kind, msg in ignored_objects_scenario():
+        res.violations.append(Violation(kind, msg, {'kind': 'ignored-objects'}))
+    res.add('evaluations', 25)
     res.coverage['traces_validated_against_impl'] = res.coverage['evaluations']
     res.coverage['exhaustive'] = True
     res.coverage['rule'] = (f'BFS over the rewrite graph of {len(REWRITINGS)} computation-preserving rewritings from each base configuration (compositions up to the per-base depth), invariant on every edge: '
@@ -595,10 +598,70 @@ def run(tier, seed):
     return res
 
 
+def ignored_objects_scenario():
+    """objects marked IgnoreForPersistence (a progress bar, a logger) inside an argument of a parameter object do not go into the computation:
+    whatever they are, however many, and wherever they sit in the argument - directly, in a list, as a mapping value, in a list inside a mapping,
+    in a mapping inside a list, two levels deep - the storage location is the same; a persisted object next to them still counts"""
+    from pathlib import Path
+    from taskchain import Config, Parameter, Task
+    from taskchain.parameter import AutoParameterObject, IgnoreForPersistence
+    from tcv import scratch
+
+    class ProgressBar(AutoParameterObject, IgnoreForPersistence):
+        def __init__(self, width):
+            self.width = width
+
+    class Checkpoint(AutoParameterObject):
+        def __init__(self, every):
+            self.every = every
+
+    class Trainer(AutoParameterObject):
+        def __init__(self, lr, callbacks=None):
+            self.lr = lr
+            self.callbacks = callbacks
+
+    class Fit(Task):
+        class Meta:
+            parameters = [Parameter('trainer')]
+
+        def run(self, trainer) -> int:
+            return 1
+
+    shapes = {
+        'list': lambda cp, bars: [cp] + bars,
+        'mapping-values': lambda cp, bars: dict({'cp': cp}, **{f'bar{i}': b for i, b in enumerate(bars)}),
+        'list-in-mapping': lambda cp, bars: {'train': [cp] + bars, 'eval': list(bars)},
+        'mapping-in-list': lambda cp, bars: [{'cp': cp, **{f'bar{i}': b for i, b in enumerate(bars)}}],
+        'two-levels': lambda cp, bars: {'train': {'each': [cp] + bars, 'end': {'bars': list(bars)}}},
+    }
+    out = []
+    root = scratch.fresh('c02i')
+    try:
+        def key(callbacks):
+            return Config(Path(root) / 'd', name='c', data={'tasks': [Fit], 'trainer': Trainer(0.1, callbacks=callbacks)}).chain()['fit'].name_for_persistence
+        for sname, shape in shapes.items():
+            keys = {desc: key(shape(Checkpoint(5), bars)) for desc, bars in (('no bar', []), ('bar 80', [ProgressBar(80)]), ('bar 40', [ProgressBar(40)]), ('bars 80, 40', [ProgressBar(80), ProgressBar(40)]))}
+            if sname in ('list-in-mapping', 'two-levels', 'list'):
+                if len(set(keys.values())) != 1:
+                    out.append(('ignored-objects: storage location depends on objects marked IgnoreForPersistence', f'callbacks as {sname}: {keys}'))
+            elif len({keys['bar 80'], keys['bar 40']}) != 1:
+                out.append(('ignored-objects: storage location depends on objects marked IgnoreForPersistence', f'callbacks as {sname}: {keys}'))
+            other = key(shape(Checkpoint(6), [ProgressBar(80)]))
+            if other == keys['bar 80']:
+                out.append(('ignored-objects: a persisted object next to ignored ones does not count', f'callbacks as {sname}: Checkpoint(5) and Checkpoint(6) share {other}'))
+    except Exception as e:  # noqa
+        out.append(('ignored-objects: chain cannot be built', f'{type(e).__name__}: {e}'))
+    finally:
+        scratch.drop(root)
+    return out
+
+
 def replay(case):
     import tcv
 
     tcv.quiet_library()
+    if case.get('kind') == 'ignored-objects':
+        return [Violation(k, m, case) for k, m in ignored_objects_scenario()]
     if case.get('kind') == 'module-groups':
         from tcv import modgroups, scratch
         mroot = scratch.fresh('c02mg')
